@@ -404,7 +404,8 @@ func init() {
 		o.do(ztableLine(0))
 		// (1) time-control arithmetic: dense grid + random 64-bit values
 		ms := int64(time.Millisecond)
-		clocks := []int64{0, 1, 2, 3, 79, 80, 81, ms, 7 * ms, 999 * ms, 1000 * ms, 60000 * ms, 3600000 * ms, 1 << 40, 1 << 50, 1<<62 - 1}
+		clocks := []int64{0, 1, 2, 3, 79, 80, 81, ms, 7 * ms, 999 * ms, 1000 * ms, 60000 * ms, 3600000 * ms, 1 << 40, 1 << 50, 1<<62 - 1,
+			-1, -81, -500 * ms, -(1 << 50), -(1<<62 - 1)} // negative: a clock that has run out (C15LimitsNeg)
 		for _, w := range clocks {
 			for _, m := range []int64{0, 1, 2, 3, 10, 39, 40, 41, 100, 1 << 20, 1<<31 - 1, 1 << 31, 1<<62 - 1, 1 << 62, 1<<63 - 2, 1<<63 - 1, -1, -(1 << 62), -(1 << 63)} {
 				for _, c := range []string{"w", "b"} {
